@@ -24,7 +24,10 @@ SRC = ['(a / x :R (b / y :R (c / z :S a)) :T c :A 1)',
        '(c / chapter :mod 7 :domain-of (d / dog :location (p / park)) :ARG1-of (m / have-mod-91 :ARG2 (e / e)))',
        '(a / alpha :op10 k :op2 j :ARG1-of (b / beta) :consist-of-of (g / gamma) :polarity -)',
        '(a / alpha~1 :ARG1-of~2 (_ / have-mod-91~3 :ARG2 7~4) :mod~5 (b / beta~6) :location (c / c :ARG0-of b))',
-       '(a / x :ARG1-of (m / have-mod-91~e.2 :ARG2~e.3 (b / y)) :quant 1~e.4)']
+       '(a / x :ARG1-of (m / have-mod-91~e.2 :ARG2~e.3 (b / y)) :quant 1~e.4)',
+       # roles and concepts for which the AMR model defines several alternatives (table order decides)
+       '(a / alpha :poss (b / beta) :beneficiary (g / gamma) :ARG1-of (i / include-91 :ARG2 (s / set)) '
+       ':ARG0-of (h / have-org-role-91 :ARG2 (r / role)))']
 
 
 def snap(x):
@@ -203,7 +206,10 @@ FLAGS = {'canon': ['--canonicalize-roles'], 'reify': ['--reify-edges'],
          'dereify': ['--dereify-edges'], 'attrs': ['--reify-attributes'],
          'branches': ['--indicate-branches'], 'reconf': ['--reconfigure', 'canonical'],
          'rearr': ['--rearrange', 'canonical'], 'vars': ['--make-variables', '{prefix}{j}'],
-         'rearr_af': ['--rearrange', 'attributes-first']}
+         'rearr_af': ['--rearrange', 'attributes-first'],
+         # several sort methods: the order in which the user lists them is their priority
+         'rearr_ia': ['--rearrange', 'inverted-last,alphanumeric'],
+         'rearr_ai': ['--rearrange', 'alphanumeric,inverted-last']}
 MODELS = {'default': [], 'amr': ['--amr'], 'noop': ['--noop']}
 FORMATS = {'std': ({'indent': -1}, []), 'no': ({'indent': None}, ['--indent', 'no']),
            'i3c': ({'indent': 3, 'compact': True}, ['--indent', '3', '--compact']),
@@ -236,6 +242,10 @@ def pipeline(text, model, opts, fmt):
             layout.rearrange(t, key=lambda role: [model.canonical_order(role)])
         elif 'rearr_af' in opts:
             layout.rearrange(t, key=lambda role: [], attributes_first=True)
+        elif 'rearr_ia' in opts:
+            layout.rearrange(t, key=lambda role: [model.is_role_inverted(role), model.alphanumeric_order(role)])
+        elif 'rearr_ai' in opts:
+            layout.rearrange(t, key=lambda role: [model.alphanumeric_order(role), model.is_role_inverted(role)])
         if 'vars' in opts:
             t.reset_variables('{prefix}{j}')
         out.append(penman.format(t, indent=fmt.get('indent', -1), compact=fmt.get('compact', False)))
@@ -330,7 +340,7 @@ def run_C20(R):
     texts_pool.append('\n\n'.join(('# ::id %d\n# ::snt s %d ; x\n' % (i, i)) + s for i, s in enumerate(SRC[:third])) + '\n')
     texts_pool.append('\n'.join(SRC[third:]) + '\n')
     texts_pool.append('')
-    flags = [f for f in FLAGS if f != 'rearr_af'] + ['triples']
+    flags = [f for f in FLAGS if not f.startswith('rearr_')] + ['triples']
     n = 28 if R.quick else 700
     # pairwise-ish covering sample: every flag alone, every pair (thorough), random subsets
     subsets = [[]] + [[f] for f in flags]
@@ -350,7 +360,7 @@ def run_C20(R):
     tricky = ('(x0 / plan :ARG1-of (x1 / back-01) :mod b :quant p)\n\n'
               '(w / want-01 :ARG0 (b / boy) :polarity - :mod w2 :ARG1 (g / go-02 :ARG0 b))\n')
     for on in (['rearr_af'], ['vars'], ['vars', 'rearr_af'], ['vars', 'rearr'], ['rearr_af', 'reify'],
-               ['vars', 'rearr_af', 'canon']):
+               ['vars', 'rearr_af', 'canon'], ['rearr_ia'], ['rearr_ai'], ['rearr_ia', 'canon']):
         for mname in ('default', 'amr'):
             R.check('C20.cli', {'on': on, 'model': mname, 'fmt': R.rnd.choice(list(FORMATS)), 'via': 'stdin',
                                 'texts': [tricky]})
